@@ -45,6 +45,13 @@ claim("C09",
       "termination certificate for the expand recursion; dominance of the listing by the not-visited branch of the visited gate and context threading; field-read analysis of the visited key (reads namespace, object, relation on the subject-set path); def-use of every tree node's subject back to the listing; token-feeding check of the page loop; clamp evaluation; level-count arithmetic from the decrement and leaf guard",
       "Decides termination, at-most-once expansion, edges-from-listed-tuples, page completeness, the clamp and the level bound of expand; does not decide completeness of the leaves or equality with check. Right level: each clause is a dominance/def-use fact of buildTreeRecursive and the visited gate.")
 
+claim("C11",
+      "exhaustiveness tables (parser-constructed AST node kinds vs engine dispatch); must-pass/dominance check that every AST literal with a name field is accompanied by the registration of its deferred type check on the same token; guard check that parse runs all deferred checks on the error-free path; no-early-exit check of for-all loops in the type checks; append-only typestate of the class's relation list",
+      "Decides that parsed configurations cannot reach 'not implemented', that every name the engine consumes has its deferred check registered, that all checks run and quantify over all types, and that no declared relation is dropped from the AST; does not decide that the type checker's traversal rule equals the engine's evaluation (F14). Right level: registration and exhaustiveness are shape facts of parser and engine.")
+claim("C12",
+      "type-set check of every value reaching match's type switch (through the any-typed forwarder) and case-set dominance of setOperation's call sites; CFG path counting and cycle check of item emissions per lexer state against the channel capacity; prefix-guard dominance of lexer position writes; no-progress-cycle search in every unbounded parser loop; termination certificates for every recursive SCC of package schema; length-guard check of row indexing; source agreement of the REST/gRPC error mappers and whole-content parsing in both handlers",
+      "Decides the absence of the structural ways to panic or hang (explicit panics unreachable, bounded emissions, guarded position writes, loop progress, bounded recursion, guarded indexing) and REST/gRPC agreement of the syntax endpoints; does not decide linear running time. Right level: each is a path/shape fact of lexer, parser and handlers.")
+
 for p in ["C04","C05","C06","C07","C08","C09","C11","C12","C13","C14","C16","C18","C19"]:
     na(p, NOTBUILT)
 na("C10", "semantic equivalence between the parser's output and TypeScript's grammar over all programs: precedence/associativity is not a code shape every correct parser shares; no sound structural necessary condition found (and the property is known to be violated: a||b&&c parses as (a||b)&&c), so a static green light would be misleading")
